@@ -34,6 +34,7 @@ func init() {
 			"C03-R7": "authentication settings survive the backend conversion and the profile file cache (enabled iff present; DoH-only flag and hash copied whenever present)",
 			"C03-R10": "every field of a request-information object taken from a pool (the credentials, server name and device result it carries identify the client) is re-initialised on every path",
 			"C03-R11": "identifier extraction helpers: DoH takes the user name of the credentials before the URL path; the server name is used only as an immediate subdomain of a configured device domain; the EDNS scan stops at the first CPE-ID option; invalid identifiers are errors, not anonymous requests",
+			"C03-R12": "each server's middleware gets a device finder built for that very server",
 			"C03-R9": "profile database lookups by linked IP, dedicated IP, human ID and device ID re-check the current data (shared with C14-R4)",
 			"C03-R8": "a password authenticates only when the hash comparison returns no error",
 			"C03-R6": "identifier channel by transport (DoH: user info > URL path > server name; DoT/DoQ: server name; plain DNS: EDNS option)",
@@ -45,6 +46,7 @@ func init() {
 const dfPkg = "dnssvc/internal/devicefinder."
 
 func runC03(c *an.Ctx) {
+	c03FinderWiring(c)
 	c03Extraction(c)
 	// ---- R10: recycled request-information objects never carry the previous request's identity data
 	c.Floor("C03-R10", 5)
@@ -905,4 +907,54 @@ func c03Extraction(c *an.Ctx) {
 			return ""
 		},
 	})
+}
+
+// c03FinderWiring checks that every server's rate-limit middleware gets a device
+// finder built for that very server (the finder reads the server's linked-IP and
+// bind-to-interface settings): the DeviceFinder field of each
+// ratelimitmw.Config literal is a direct call of newDeviceFinder whose server
+// argument is the value stored into the same literal's Server field.
+func c03FinderWiring(c *an.Ctx) {
+	c.Floor("C03-R12", 1)
+	const k = "dnssvc.newHandlersForServers"
+	fn := c.Fn(k)
+	if fn == nil {
+		c.Und("C03-R12", k, token.NoPos, "anchor not found")
+		return
+	}
+	c.Analysed(k)
+	type lit struct{ server, finder ssa.Value }
+	lits := map[ssa.Value]*lit{}
+	an.Instrs(fn, func(in ssa.Instruction) {
+		st, ok := in.(*ssa.Store)
+		if !ok {
+			return
+		}
+		typ, f, base, ok := an.FieldOf(st.Addr)
+		if !ok || typ != "dnssvc/internal/ratelimitmw.Config" {
+			return
+		}
+		if lits[base] == nil {
+			lits[base] = &lit{}
+		}
+		switch f {
+		case "Server":
+			lits[base].server = st.Val
+		case "DeviceFinder":
+			lits[base].finder = st.Val
+		}
+	})
+	n := 0
+	for _, l := range lits {
+		n++
+		ok := false
+		if call, isCall := an.Unwrap(l.finder).(*ssa.Call); isCall && an.IsCall(call, "dnssvc.newDeviceFinder") && len(call.Call.Args) == 3 {
+			ok = l.server != nil && call.Call.Args[2] == l.server
+		}
+		c.Check(ok, "C03-R12", k+" finder per server", fn.Pos(), "each server's middleware gets a device finder built for that server",
+			"a server's middleware gets a device finder that was not built for it (shared or cached between servers): linked-IP and dedicated-IP recognition follows another server's settings")
+	}
+	if n == 0 {
+		c.Und("C03-R12", k+" config", fn.Pos(), "no ratelimitmw.Config literal found")
+	}
 }
